@@ -87,6 +87,9 @@ type Content struct {
 	R     round.Number
 	Nonce []byte
 	V     []byte
+	// Salt is fresh randomness in every broadcast; any value is valid, so a party can send two different,
+	// individually valid broadcasts in any round (what an equivocator does)
+	Salt []byte
 }
 
 func (c *Content) RoundNumber() round.Number { return c.R }
@@ -214,7 +217,10 @@ func (b *bcast) StoreBroadcastMessage(msg round.Message) error {
 	if b.n == 2 {
 		b.nonces[msg.From] = nonce
 	}
-	b.bvals[b.n][msg.From] = c.V
+	if len(c.Salt) != 8 {
+		return errors.New("toy: bad salt")
+	}
+	b.bvals[b.n][msg.From] = append(append([]byte(nil), c.V...), c.Salt...)
 	return nil
 }
 
@@ -260,8 +266,12 @@ func (p *plain) Finalize(out chan<- *round.Message) (round.Session, error) {
 	}
 	if p.shape.B[nx-2] {
 		v := p.value("b", self, "", nx, p.nonce)
-		p.bvals[nx][self] = v
-		if err := p.BroadcastMessage(out, &Content{R: round.Number(nx), Nonce: nonce, V: v}); err != nil {
+		salt := make([]byte, 8)
+		if _, err := rand.Read(salt); err != nil {
+			return nil, err
+		}
+		p.bvals[nx][self] = append(append([]byte(nil), v...), salt...)
+		if err := p.BroadcastMessage(out, &Content{R: round.Number(nx), Nonce: nonce, V: v, Salt: salt}); err != nil {
 			return nil, err
 		}
 	}
